@@ -27,6 +27,9 @@ def check_world(world, top):
             if not os.path.isdir(cfg0["directory"]):
                 skipped += 1
                 continue
+            if "-iquote" in W.entry_argv(e):
+                skipped += 1      # honoured by gcc, ignored (with a warning) by the SUT
+                continue
             if cfg0["compiler"] not in ("gcc", "g++", "clang", "clang++"):
                 # multi-pass / implicit-define compilers are CBI conventions, not gcc behaviour
                 skipped += 1
